@@ -46,13 +46,13 @@ void tokenprint(const struct token *t) { }
 void scanfrom(const char *f, FILE *fp) { }
 void scanopen(void) { }
 void scansetloc(struct location loc) { }
-static struct token pendbuf[NS + 2]; static struct frame framebuf[3];
+static struct token pendbuf[NS + 2], pendbuf2[NS + 2]; static struct frame framebuf[3]; static int g_npend;
 void *
 arrayadd(struct array *a, size_t n)
 {
 	void *v;
 	if (!a->val) {
-		if (n == sizeof(struct token)) { a->val = pendbuf; a->cap = sizeof(pendbuf); }
+		if (n == sizeof(struct token)) { a->val = g_npend++ ? pendbuf2 : pendbuf; a->cap = sizeof(pendbuf); }    /* each look-ahead array of peekparen() gets storage of its own */
 		else { a->val = framebuf; a->cap = sizeof(framebuf); }
 	}
 	__CPROVER_assert(a->cap - a->len >= n, "stays inside the buffer this unit provides");
@@ -114,11 +114,15 @@ harness(void)
 #ifdef VERIF_CANARY
 		__CPROVER_assert(!(g_ndir == 1 && !r && nkeep == 2), "CANARY");
 #endif
-		/* a later look-ahead (the pending tokens having been delivered) starts afresh */
-		{
-			unsigned before = s_pos; int nd = g_ndir; bool r2;
-			ctx.len = 0;
+		/* the pending tokens are delivered; the LAST of them may be a function-like macro name, which expand() examines by
+		   calling peekparen() again while still holding the pointer to it (next() copies *t afterwards) */
+		if (!r) {
+			unsigned before = s_pos; int nd = g_ndir; bool r2; struct token *last = 0, snap;
+			{ struct frame *f1 = ctx.val; last = &f1->token[nkeep - 1]; f1->token += nkeep; f1->ntoken = 0; }    /* what nkeep calls of framenext() leave (PP.ctxnext.bnd) */
+			__CPROVER_assert(last->loc.col == nxt, "the last pending token is the one the look-ahead stopped at");
+			snap = *last;
 			r2 = peekparen();
+			__CPROVER_assert(last->kind == snap.kind && last->loc.col == snap.loc.col && last->space == snap.space, "the token under examination is not overwritten by the new look-ahead, even though it was itself delivered from the look-ahead buffer");
 			if (!r2 && g_ndir == nd) {
 				struct frame *f2 = ctx.val;
 				__CPROVER_assert(ctx.len == sizeof(*f2) && f2->ntoken == s_pos - before && f2->token[0].loc.col == before, "only the tokens of THIS look-ahead are pending");
